@@ -16,11 +16,12 @@ vector update / vector removal / delete changes, including batches naming the sa
 (the last-change-wins bookkeeping of the repaired `insertUpdateDelete`; `lastWins = false` is the tree before
 the `fix:` commit, for which `C10_defect13_witness` shows the invariant broken).
 
-Modelling assumptions (see notes/C10.md): the insert workers run one after the other (sequential
-schedule); a rejected batch leaves the state unchanged (bbolt rollback + scrapped cache); node ids in the
-change stream are those of the point store (C01: ids of live points are unique, `L` has no duplicates).
+Modelling assumptions (see notes/C10.md): in `apply` the insert workers run one after the other (sequential
+schedule) — `C10_step_any_workers` removes that assumption for well-formedness: it starts from ANY graph the
+workers may leave; a rejected batch leaves the state unchanged (bbolt rollback + scrapped cache); node ids in
+the change stream are those of the point store (`C10_ids` in Links.lean: C01's invariant).
 -/
-import SemaModel.C10.Lemmas
+import SemaModel.C10.Batch
 import SemaModel.Generated.FactsC10
 namespace Sema.C10
 open Sema.C03
@@ -71,6 +72,63 @@ theorem C10_history_from (cfg : Cfg) (hR : 1 ≤ cfg.degreeBound) (steps : List 
 theorem C10_history (cfg : Cfg) (hR : 1 ≤ cfg.degreeBound) (steps : List (Step D)) :
     WF cfg.degreeBound (run cfg steps (Graph.init, [])).1 (run cfg steps (Graph.init, [])).2 :=
   C10_history_from cfg hR steps Graph.init [] (C10_init _)
+
+end
+
+/-! ### batches of several changes and the parallel insert workers
+
+`apply` runs the insert workers one after the other.  The real code runs them in parallel, so the EDGES they
+create are not a function of the batch.  What is: the bookkeeping of the classification (`classes`: no graph,
+no distance), and everything that happens after the workers have been waited for (`tail`: single-threaded in
+the code).  The three theorems below split `C10_step` along that line; the correspondence (`batch` lines of
+the driver, go/vgraph/batch.go) compares exactly these pieces with the real run of every multi-change batch. -/
+
+section
+variable {D : Type} [LT D] [DecidableRel (α := D) (· < ·)]
+
+/-- `apply` is the classification (with the sequential insert workers) followed by `tail` -/
+theorem C10_apply_phases (cfg : Cfg) (ds : Dists D) (ord : List Id) (g : Graph) (batch : List Change) :
+    apply cfg ds ord g batch =
+      (match classifyAll true cfg ds batch { g := g } with
+       | .error e => .error e
+       | .ok acc => tail cfg ds ord acc) :=
+  applyV_tail true cfg ds ord g batch
+
+/-- what a change is filed under does not depend on any distance (hence on no edge and on no interleaving of
+the insert workers): the lists the sequential model ends the classification with are those of the pure
+bookkeeping `classes`, for the repaired code and for the tree before the repair (`lastWins = false`) -/
+theorem C10_classes (lastWins : Bool) (cfg : Cfg) (ds : Dists D) (g : Graph) (batch : List Change) (acc : Acc)
+    (h : classifyAll lastWins cfg ds batch { g := g } = .ok acc) :
+    acc.updated = (classes lastWins g.hasVec g.maxId batch).upd ∧
+    acc.deleted = (classes lastWins g.hasVec g.maxId batch).del ∧
+    acc.touched = (classes lastWins g.hasVec g.maxId batch).tch ∧
+    acc.g.maxId = (classes lastWins g.hasVec g.maxId batch).maxId ∧
+    (∀ i, acc.g.hasVec i = ((classes lastWins g.hasVec g.maxId batch).ins.contains i || g.hasVec i)) := by
+  obtain ⟨h1, h2, h3, h4, h5⟩ := classifyAll_classes lastWins cfg ds g batch acc h
+  exact ⟨h1, h2, h3, h4, h5⟩
+
+/-- `C10_step` for ANY behaviour of the insert workers: let `g1` be whatever graph they leave behind.  If `g1`
+is well-formed for the old live points plus the points handed to the workers (`classes … .ins`) — the harness
+evaluates exactly this `WF` on the node store observed at that moment of every real batch — then the rest of
+the batch (`tail`, started from `g1` with the bookkeeping of `classes`) ends in a graph that is well-formed for
+the live points after the batch.  Hypothesis on the batch: it names neither the entry node nor id 0 (such a
+batch is rejected: `C10_reserved_ids_rejected`). -/
+theorem C10_step_any_workers (cfg : Cfg) (hR : 1 ≤ cfg.degreeBound) (ds : Dists D) (ord : List Id) (g g1 g' : Graph)
+    (L : List Id) (batch : List Change) (hWF : WF cfg.degreeBound g L) (hres : ∀ c ∈ batch, c.id ≠ entry)
+    (hmid : WF cfg.degreeBound g1 (L ++ (classes true g.hasVec g.maxId batch).ins))
+    (h : tail cfg ds ord { g := g1, updated := (classes true g.hasVec g.maxId batch).upd,
+                           deleted := (classes true g.hasVec g.maxId batch).del,
+                           touched := (classes true g.hasVec g.maxId batch).tch } = .ok g') :
+    WF cfg.degreeBound g' (liveAfter L batch) :=
+  tail_any_mid cfg hR ds ord g g1 g' L batch hWF hres hmid h
+
+/-- the sequential model is one such behaviour: the graph ITS workers leave is well-formed for the old live
+points plus `ins` (so `C10_step` is the instance `g1 := acc.g` of `C10_step_any_workers`) -/
+theorem C10_sequential_workers (cfg : Cfg) (hR : 1 ≤ cfg.degreeBound) (ds : Dists D) (g : Graph) (L : List Id)
+    (batch : List Change) (acc : Acc) (hWF : WF cfg.degreeBound g L)
+    (h : classifyAll true cfg ds batch { g := g } = .ok acc) :
+    WF cfg.degreeBound acc.g (L ++ (classes true g.hasVec g.maxId batch).ins) ∧ (∀ c ∈ batch, c.id ≠ entry ∧ c.id ≠ 0) :=
+  ⟨classifyAll_mid cfg hR ds g L batch acc hWF h, classifyAll_no_reserved true cfg ds batch _ acc h⟩
 
 end
 
@@ -152,6 +210,33 @@ theorem C10_defect13_witness :
           !wfB exCfg.degreeBound g' [3, 4, 5, 6]) &&
      okAnd (applyV true exCfg exDists [] exGraph [⟨2, true⟩, ⟨2, false⟩])
        (fun g' => !g'.keys.contains 2 && wfB exCfg.degreeBound g' [3, 4, 5, 6])) = true := by decide
+
+/-- the bookkeeping on the batch of the example above: 7 goes to the workers; 3 is updated; 4 and 2 are
+deleted; 5 — named three times — is filed under `updated` once (its last change) and nowhere else; 9 is
+skipped.  Without the repair 5 is filed three times. -/
+example : classes true exGraph.hasVec exGraph.maxId
+      [⟨7, true⟩, ⟨3, true⟩, ⟨4, false⟩, ⟨9, false⟩, ⟨5, true⟩, ⟨5, false⟩, ⟨5, true⟩, ⟨2, false⟩] =
+    { ins := [7], upd := [3, 5], del := [4, 2], tch := [2, 5, 5, 5, 4, 3], maxId := 7 } ∧
+    (classes false exGraph.hasVec exGraph.maxId
+      [⟨7, true⟩, ⟨3, true⟩, ⟨4, false⟩, ⟨9, false⟩, ⟨5, true⟩, ⟨5, false⟩, ⟨5, true⟩, ⟨2, false⟩]).upd = [3, 5, 5] := by
+  decide
+
+/-- a mid graph the SEQUENTIAL model never produces (7 hangs off node 6 only; the model links it to 6 and 5 and
+back): it is well-formed for the old live points plus `ins`, so `C10_step_any_workers` applies to it — its
+hypotheses are satisfiable beyond the sequential schedule — and the rest of the batch is accepted from it -/
+def exMid : Graph :=
+  { exGraph with nodes := (7, [6]) :: exGraph.nodes, vecs := 7 :: exGraph.vecs, maxId := 7 }
+
+example :
+    (let batch : List Change := [⟨7, true⟩, ⟨3, true⟩, ⟨4, false⟩, ⟨9, false⟩, ⟨5, true⟩, ⟨5, false⟩, ⟨5, true⟩, ⟨2, false⟩]
+     let k := classes true exGraph.hasVec exGraph.maxId batch
+     wfB exCfg.degreeBound exGraph [2, 3, 4, 5, 6] && batch.all (fun c => c.id != entry) &&
+     wfB exCfg.degreeBound exMid ([2, 3, 4, 5, 6] ++ k.ins) &&
+     (match classifyAll true exCfg exDists batch { g := exGraph } with
+      | .ok acc => acc.g.nodes != exMid.nodes
+      | .error _ => false) &&
+     okAnd (tail exCfg exDists [] { g := exMid, updated := k.upd, deleted := k.del, touched := k.tch })
+       (fun g' => wfB exCfg.degreeBound g' (liveAfter [2, 3, 4, 5, 6] batch))) = true := by decide
 
 /-! ### the point store and the index change stream — index schemas over nested property paths
 
